@@ -84,7 +84,7 @@ def _is_prefix_ty(t):
     return t[0] == "c" and t[1] not in T.BASE
 
 
-def overlap_leaf(rng, root):
+def overlap_leaf(rng, root, nested=False):
     """(wide, narrow): two leaves, narrow a strict part of wide."""
     p = root
     if rng.random() < 0.35:
@@ -92,7 +92,7 @@ def overlap_leaf(rng, root):
     q = p + "/" + rng.choice(CHAIN_SEGS)
     if rng.random() < 0.25:
         q += "/" + rng.choice(CHAIN_SEGS)
-    r = rng.random()
+    r = rng.random() * (0.88 if nested else 1.0)   # element types are compared with TypeConforms: no unions below
     if r < 0.60:
         return T.tc(p), T.tc(q)
     if r < 0.75:
@@ -102,15 +102,15 @@ def overlap_leaf(rng, root):
     return T.tc(p), T.tunion([T.tc(q), T.tsing(T.cname(p + "/y"))])   # nested union as an alternative
 
 
-def overlap_pair(rng, root, env, depth):
+def overlap_pair(rng, root, env, depth, nested=False):
     """(wide, narrow) of one shape; the wrapping constructors are the covariant ones."""
-    if depth <= 0 or rng.random() < 0.55:
-        return overlap_leaf(rng, root)
+    if depth <= 0 or rng.random() < 0.2:
+        return overlap_leaf(rng, root, nested)
     k = rng.choice(["list", "list", "pair", "pair", "map", "struct", "tuple"])
     if k in ("list", "pair") and rng.random() < 0.3:
         w, n = T.ANY, rng.choice(FILLERS[:3] + [T.tc(root)])       # fn:List(/any) vs fn:List(/number)
     else:
-        w, n = overlap_pair(rng, root, env, depth - 1)
+        w, n = overlap_pair(rng, root, env, depth - 1, True)
     side = rng.choice(FILLERS[:3] + [T.ANY, T.tc(root)])
     if k == "list":
         return T.tlist(w), T.tlist(n)
@@ -126,7 +126,7 @@ def overlap_pair(rng, root, env, depth):
 def make_overlap_group(rng, nlists):
     env = {"key": rng.choice([T.STRING, T.NAME, T.NUMBER])}
     roots = rng.sample(CHAIN_ROOTS, 3)
-    depth = rng.choice([0, 0, 1, 1, 2])
+    depth = rng.choice([0, 1, 1, 2, 2])
     pairs = [overlap_pair(rng, roots[0], env, depth), overlap_pair(rng, roots[1], env, rng.choice([0, depth])),
              overlap_leaf(rng, roots[2])]
     (w1, n1), (w2, n2), (w3, n3) = pairs
@@ -286,6 +286,25 @@ def union_pair_lists(tys, keep=None):
     if keep is not None:
         us = [i for i in us if keep(tys[i])]
     return [[i, j] for i in us for j in us if i != j]
+
+
+def exhaustive_union_group():
+    """Thorough tier: both bounds of EVERY ordered pair of two-alternative unions
+    Union(x, f) / Union(x, y) over a small set of alternatives x (nested name
+    prefixes, a singleton, /name, and the covariant constructors over them) and
+    two fillers f - the lists of two unions of the depth-2 grammar."""
+    import random
+    leaves = [T.tc("/a"), T.tc("/a/b"), T.tc("/ab"), T.tsing(T.cname("/a/b")), T.NAME]
+    inner = [T.ANY, T.NUMBER, T.tc("/a"), T.tc("/a/b")]
+    alts = leaves + [T.tlist(l) for l in inner] + [T.tpair(l, T.NUMBER) for l in inner] + \
+        [T.tpair(T.NUMBER, l) for l in inner[2:]] + [T.tstruct([["/f", l]]) for l in inner[1:]]
+    fillers = [T.STRING, T.tc("/float64")]
+    tys = [T.tunion([x, f]) for x in alts for f in fillers]
+    tys += [T.tunion([x, y]) for x, y in itertools.combinations(leaves, 2)]
+    tys = T.dedup(tys)
+    consts = separating_universe(random.Random(12), tys, cap=40)
+    lists = [[i, j] for i in range(len(tys)) for j in range(len(tys)) if i != j]
+    return {"tys": tys, "consts": consts, "lists": lists, "pairs": True, "stream": "exh-unions"}
 
 
 # ------------------------------------------------- verdict on Go's own answers
@@ -546,6 +565,8 @@ def run(ck):
     for _ in range(novl):
         groups.append(make_overlap_group(rng, rng.choice([16, 20, 24])))
     exhaustive = not ck.quick
+    if exhaustive:
+        groups.append(exhaustive_union_group())
     groups.append(exhaustive_groups(small=ck.quick))
     ck.log("%d groups (%d corpus), exhaustive block: %d types x %d constants, %d bound lists"
            % (len(groups), ncorpus, len(groups[-1]["tys"]), len(groups[-1]["consts"]), len(groups[-1]["lists"])))
@@ -580,7 +601,12 @@ def run(ck):
         "exhaustive": exhaustive,
         "exhaustive_scope": ("every ordered pair of the %d type expressions of the depth-2 grammar "
                              "(checks/types_common.grammar_depth2) x %d constants; both bounds of every ordered pair "
-                             "of every second type of its depth<=1 part (%d lists)" % (len(ex["tys"]), len(ex["consts"]), len(ex["lists"])))
+                             "of every second type of its depth<=1 part and of every ordered pair of its unions of two leaves "
+                             "(%d lists); both bounds of every ordered pair of %d two-alternative unions over nested name "
+                             "prefixes / a singleton / /name / fn:List, fn:Pair, fn:Struct of them and two fillers x %d "
+                             "separating constants (%d lists)"
+                             % (len(ex["tys"]), len(ex["consts"]), len(ex["lists"]),
+                                len(groups[-2]["tys"]), len(groups[-2]["consts"]), len(groups[-2]["lists"])))
         if exhaustive else "",
         "samples": stats.samples,
     }
@@ -614,8 +640,10 @@ META = {
             "implies inclusion of members for all types and all constants (on the fragment where the implemented judgement "
             "agrees with the strict one), the upper bound contains every member of each argument, the lower bound only "
             "members of all. Every run executes the real functions on generated pools of types x universes of constants "
-            "(exhaustive over a depth-2 grammar in the thorough tier), judges the three implications directly on Go's own "
-            "answers and compares every answer with the model inside Coq.",
+            "(exhaustive over a depth-2 grammar in the thorough tier; a weighted stream of unions that overlap alternative by "
+            "alternative - nested name prefixes, singletons, lists / pairs / maps / structs of them - handed to both bounds in "
+            "every order with the constants that separate the alternatives), judges the three implications directly on Go's "
+            "own answers and compares every answer with the model inside Coq.",
     "note": "Trusted: Coq kernel + vm_compute; the model is tied to the code by differential runs (sampled; exhaustive on "
             "the depth-2 grammar); fragment: no type variables / function / relation / option types; outside `nice` the "
             "property fails on the real code (known findings F7b map keys, F7c struct width, F7f tagged union on the right).",
